@@ -130,7 +130,10 @@ class ControlFlowTransformer(converter.Base):
     return assignments
 
   def _get_block_basic_vars(self, modified, live_in, live_out):
-    nonlocals = self.state[_Function].scope.nonlocals
+    fn_scope = self.state[_Function].scope
+    # Names declared global or nonlocal live outside the function, so writes to
+    # them are always observable.
+    nonlocals = fn_scope.nonlocals | fn_scope.globals
     basic_scope_vars = []
     for s in modified:
       if s.is_composite():
